@@ -27,18 +27,21 @@ for id in $ids; do
   fi
 done
 for id in $ids; do
-  d=/verif/seeded/$id
-  [ -f $d/patch.diff ] || { echo "note $id has no recorded must-fail change"; continue; }
-  git -C /repo apply $d/patch.diff || { echo "SELFTEST FAIL: $id patch does not apply"; bad=1; continue; }
-  VERIF_EVIDENCE_DIR=/verif/out/seed_evidence ./check $id > out/selftest/$id.seed.log 2>&1; rc=$?
-  git -C /repo checkout -- .
-  git -C /repo clean -fdq -- internal cmd 2>/dev/null
-  v=$(grep -c '^VIOLATION' out/selftest/$id.seed.log)
-  if [ $rc -ne 1 ] || [ "$v" -eq 0 ]; then
-    echo "SELFTEST FAIL: $id must-fail change not reported (rc=$rc violations=$v)"; bad=1
-  else
-    echo "ok   $id must-fail change reported ($v obligations)"
-  fi
+  [ -f /verif/seeded/$id/patch.diff ] || echo "note $id has no recorded must-fail change"
+  for d in /verif/seeded/$id /verif/seeded/${id}[a-z]; do
+    [ -f $d/patch.diff ] || continue
+    sid=$(basename $d)
+    git -C /repo apply $d/patch.diff || { echo "SELFTEST FAIL: $sid patch does not apply"; bad=1; continue; }
+    VERIF_EVIDENCE_DIR=/verif/out/seed_evidence ./check $id > out/selftest/$sid.seed.log 2>&1; rc=$?
+    git -C /repo checkout -- .
+    git -C /repo clean -fdq -- internal cmd 2>/dev/null
+    v=$(grep -c '^VIOLATION' out/selftest/$sid.seed.log)
+    if [ $rc -ne 1 ] || [ "$v" -eq 0 ]; then
+      echo "SELFTEST FAIL: $sid must-fail change not reported (rc=$rc violations=$v)"; bad=1
+    else
+      echo "ok   $sid must-fail change reported ($v obligations)"
+    fi
+  done
 done
 [ -z "$(git -C /repo status --porcelain)" ] || { echo "SELFTEST FAIL: /repo left dirty"; bad=1; }
 exit $bad
